@@ -201,6 +201,8 @@ class _EcdsaStub:
 IMAGE_SETS = [
     ["/a/app.hex"], ["/a/app.hex", "/a/ui.hex"], ["/a/app.hex", "/b/app.hex"], ["/a/app.hex", "/b/app.hex", "/c/app.hex"],
     ["/a/ui.hex", " /a/app.hex "],
+    # lists with an empty entry (stray commas): the tool may refuse them, but whatever it writes must be right
+    ["/a/app.hex", "", "/b/app.hex", "/c/app.hex"], ["", "/a/app.hex", "/b/app.hex"], ["/a/app.hex", "/b/app.hex", ""],
 ]
 
 
@@ -231,7 +233,7 @@ def run_signonetime(fs, apps, pubpath):
 
 
 @obligation(tier="quick", timeout=200,
-            bounds="image sets: 5 catalogue sets of 1..3 images (same file name in different directories, names with blanks) - symbolic "
+            bounds="image sets: 8 catalogue sets of 1..3 images (same file name in different directories, names with blanks, lists with an empty entry) - symbolic "
                    "selection; each image a different catalogue image; two consecutive runs",
             examples=[(0, dict(s=i, shift=1)) for i in range(len(IMAGE_SETS))])
 def one_time(s: int, shift: int) -> bool:
@@ -247,16 +249,29 @@ def one_time(s: int, shift: int) -> bool:
         fs = MemFS()
         images = {}
         for j, a in enumerate(apps):
+            if a.strip() == "":
+                continue
             img = IMAGES[(j + shift) % len(IMAGES)][1]
             images[a.strip()] = img
             fs.files[a.strip()] = hex_lines(img, [5])
         code, gen = run_signonetime(fs, apps, "/out/pub.hex ")
-        if code != 0 or len(gen) != 1:
+        stray = any(a.strip() == "" for a in apps)
+        if len(gen) > 1 or (len(gen) != 1 and not (stray and code != 0)):
             return False
+        if code != 0 and not stray:
+            return False
+        if len(gen) == 0:
+            return fs.written == {}            # refused before anything happened
         sk = gen[0]
         want = {"/out/pub.hex": sk.get_verifying_key().to_string("uncompressed").hex().encode()}
         for a, img in images.items():
             want[a + ".sig"] = sk.sign_digest(expected_hash(img), sigencode="sigencode_der").hex().encode()
+        if code != 0:
+            # a refused run: every file it did write is the right one for that image / key
+            for path, content in fs.written.items():
+                if want.get(path) != content:
+                    return False
+            return True
         if fs.written != want:
             return False
         # the secret is written nowhere
